@@ -197,6 +197,14 @@ def p_arange(I, n, pos, kw):
     if len(pos) == 1 and isinstance(pos[0], Sc):
         iv = fresh()
         return Arr([(rng(pos[0].e), iv)], sym.IV(iv), "nd")
+    if len(pos) in (2, 3) and all(isinstance(x, Sc) for x in pos):
+        lo, hi = pos[0].e, pos[1].e
+        step = pos[2].e if len(pos) == 3 else sym.ONE
+        integral = all(x[0] in ("num", "size", "iv") and (x[0] != "num" or float(x[1]).is_integer()) for x in (lo, hi, step))
+        count = sym.fn("ceil", sym.div(sym.sub(hi, lo), step)) if not integral else sym.div(sym.sub(hi, lo), step)
+        iv = fresh()
+        I.event("arange", n, lo=lo, hi=hi, step=step, integral=integral, count=count)
+        return Arr([(rng(count), iv)], sym.add(lo, sym.mul(sym.IV(iv), step)), "nd")
     return I.unknown("arange", n)
 
 
@@ -401,6 +409,24 @@ def p_arith(I, n, pos, kw):
     return arrays.binop(f, pos[0], pos[1])
 
 
+@prim("numpy.isclose", "math.isclose")
+def p_isclose(I, n, pos, kw):
+    rtol = kw.get("rtol", pos[2] if len(pos) > 2 else Sc(sym.Num(1e-5)))
+    atol = kw.get("atol", pos[3] if len(pos) > 3 else Sc(sym.Num(1e-8)))
+    if not (isinstance(rtol, Sc) and isinstance(atol, Sc)):
+        return I.unknown("isclose-tolerances", n)
+    r, a = rtol.e, atol.e
+    res = arrays.binop(lambda x, y: sym.Cmp("<=", sym.fn("abs", sym.sub(x, y)), sym.add(a, sym.mul(r, sym.fn("abs", y)))),
+                       pos[0], pos[1])
+    I.event("compare", n, op="isclose", lhs=pos[0], rhs=pos[1], result=res)
+    return res
+
+
+@prim("numpy.logical_not")
+def p_lnot(I, n, pos, kw):
+    return arrays.unop(sym.Not, pos[0])
+
+
 @prim("numpy.logical_and", "numpy.logical_or")
 def p_logical(I, n, pos, kw):
     f = sym.And if I.log[-1]["target"].endswith("and") else sym.Or
@@ -498,10 +524,25 @@ def p_arg(I, n, pos, kw):
     return Sc(sym.Opq(t, (generic_elem(pos[0]),), fresh("k")))
 
 
+@prim("numpy.array_equal", "numpy.array_equiv", "numpy.allclose")
+def p_array_equal(I, n, pos, kw):
+    a, b = pos[0], pos[1]
+    ea, eb = generic_elem(a), generic_elem(b)
+    tgt = I.log[-1]["target"]
+    I.event("array_equal", n, a=a, b=b, target=tgt)
+    return Sc(sym.Opq("array_equal", (ea, eb), fresh("q")))
+
+
 @prim("numpy.sort", "builtins.sorted")
 def p_sort(I, n, pos, kw):
     v = pos[0]
+    tgt = I.log[-1]["target"]
     I.event("sort", n, arg=v, kwargs=kw)
+    axis = kw.get("axis", pos[1] if len(pos) > 1 and tgt == "numpy.sort" else None)
+    if isinstance(v, Arr) and v.ndim == 2 and axis is not None and isinstance(axis, Sc) and axis.e == sym.ZERO:
+        # column-wise sort of a 2-d array: each column becomes its own sorted multiset — rows are no longer points
+        I.event("sort-columns", n, arg=v)
+        return Arr(v.axes, sym.Opq("colsorted", (v.elem,), None), "nd")
     if "key" in kw and not isinstance(kw["key"], NoneV):
         return I.unknown("sorted-with-key", n, (generic_elem(v),))
     if isinstance(v, Bag):
